@@ -17,6 +17,8 @@
        in the profile's alias table; services of embedded devices are not subscribed by the code and not by the spec
      * the user awaits one API call before making the next (the model ignores a call made while another is pending)
        and calls async_subscribe_services once, first: in_domain
+     * "subscribes all and only" is checked when the subscribe call returns, before the renewal task has sent a
+       request of its own (in one event loop the two coincide: the task is only created by the returning call)
      * a TIMEOUT-less 200 is taken to grant what was requested (SUBSCRIBE_TIMEOUT); Second-infinite never expires
      * the publisher processes a request at the moment its response is delivered *)
 From Coq Require Import List Bool Arith ZArith NArith.
@@ -82,13 +84,14 @@ Definition subscribed_all (sv : list bool) (o : snap) : bool :=
 Definition subscribed_none (o : snap) : bool :=
   is_nil (o_routed o) && is_nil (o_subs o) && is_nil (o_out o).
 
-Definition aon_step (sv : list bool) (prev o : snap) : bool :=
+(* [bg] = the renewal task has already sent a request of its own (from then on the subscriptions are in flux) *)
+Definition aon_step (sv : list bool) (prev : snap) (bg : bool) (o : snap) : bool :=
   if o_div o then true else
   forallb (fun q => svc_interesting sv (snd (fst (fst q)))) (o_newreqs o)
   && match first_call prev, first_call o with
      | (None | Some None), Some (Some st) =>
          match st with
-         | SRet _ => subscribed_all sv o
+         | SRet _ => bg || subscribed_all sv o
          | SExc e => is_upnp e && subscribed_none o
          | SCancelled => false
          end
@@ -103,8 +106,15 @@ Fixpoint steps_with_prev {A} (f : snap -> snap -> A) (prev : snap) (o : list sna
   | x :: r => f prev x :: steps_with_prev f x r
   end.
 
+Definition has_bg (o : snap) : bool := existsb (fun q : rkind * svc * option sid * bool => snd q) (o_newreqs o).
+Fixpoint aon_steps (sv : list bool) (prev : snap) (bg : bool) (o : list snap) : list bool :=
+  match o with
+  | [] => []
+  | x :: r => let bg' := bg || has_bg x in aon_step sv prev bg' x :: aon_steps sv x bg' r
+  end.
+
 Definition clause_aon (i : input) (o : observation) : option nat :=
-  first_false 0 (steps_with_prev (aon_step (i_svcs i)) snap0 o).
+  first_false 0 (aon_steps (i_svcs i) snap0 false o).
 
 (* ---- clause 4: the loop yields ------------------------------------------------------------------------------ *)
 Definition clause_yields (i : input) (o : observation) : option nat :=
